@@ -48,6 +48,8 @@ type netService struct {
 	Bodies  []string
 	// Files: for multipart requests, the content of each file part by the variable position its map entry names
 	Files []map[string]string
+	// Answer, when set, answers instead of the service's interpreter
+	Answer func(query string, vars map[string]interface{}) map[string]interface{}
 }
 
 type netRouter struct{}
@@ -100,6 +102,9 @@ func (netRouter) RoundTrip(req *http.Request) (*http.Response, error) {
 	ns.Bodies = append(ns.Bodies, string(body))
 	ns.Files = append(ns.Files, files)
 	ns.mu.Unlock()
+	if ns.Answer != nil {
+		return jsonResponse(200, map[string]interface{}{"data": ns.Answer(payload.Query, payload.Variables)}), nil
+	}
 	var data map[string]interface{}
 	err := ns.svc.Query(req.Context(), &graphql.QueryInput{Query: payload.Query, Variables: payload.Variables, OperationName: payload.OperationName}, &data)
 	out := map[string]interface{}{"data": data}
@@ -147,7 +152,7 @@ type NetFed struct {
 	hosts    []string
 }
 
-// NewNetFed builds the gateway with nothing but the options given (and a quiet logger).
+// NewNetFed builds the gateway with nothing but the options given.
 func NewNetFed(spec FedSpec, store Store, opts ...gateway.Option) (nf *NetFed, err error) {
 	netInstall.Do(func() { http.DefaultTransport = netRouter{} })
 	n := atomic.AddInt64(&netFedSeq, 1)
@@ -165,7 +170,8 @@ func NewNetFed(spec FedSpec, store Store, opts ...gateway.Option) (nf *NetFed, e
 		nf.Services[url] = ns
 		sources = append(sources, &graphql.RemoteSchema{Schema: sch, URL: "http://" + host + "/"})
 	}
-	all := append([]gateway.Option{gateway.WithLogger(Quiet{})}, opts...)
+	// the gateway's own default logger stays in place (it formats every step's selection set each time the step is executed)
+	all := append([]gateway.Option{}, opts...)
 	if len(spec.Priorities) > 0 {
 		var pr []string
 		for _, p := range spec.Priorities {
@@ -239,10 +245,16 @@ type NetTwinCase struct {
 	Cached    bool                   `json:"cached_plans,omitempty"`
 	Repeat    int                    `json:"concurrent_requests,omitempty"`
 	StoreSeed int64                  `json:"store_seed"`
+	// Faults (addressed by join id, so that they do not depend on the schedule) are installed in both federations
+	Faults []FaultSpec `json:"faults,omitempty"`
+	// Spec: the federation (FixedFed when absent); OddIDs: ids with separators and non-ASCII characters
+	Spec   *FedSpec `json:"fed,omitempty"`
+	OddIDs bool     `json:"odd_ids,omitempty"`
+	OpName string   `json:"operation_name,omitempty"`
 }
 
 func netStore(tc NetTwinCase) Store {
-	store := GenStore(rand.New(rand.NewSource(tc.StoreSeed)), false)
+	store := GenStore(rand.New(rand.NewSource(tc.StoreSeed)), tc.OddIDs)
 	if tc.ListLen > 0 {
 		var ids []string
 		for id := range store["User"] {
@@ -277,16 +289,28 @@ func RunNetTwin(tc NetTwinCase) []Failure {
 	if tc.Cached {
 		opts = append(opts, gateway.WithAutomaticQueryPlanCache())
 	}
-	nf, err := NewNetFed(FixedFed(), store, opts...)
+	spec := FixedFed()
+	if tc.Spec != nil {
+		spec = *tc.Spec
+	}
+	nf, err := NewNetFed(spec, store, opts...)
 	if err != nil {
 		return []Failure{{Channel: "harness", Classifier: "harness-error", What: err.Error(), Input: tc}}
 	}
 	defer nf.Close()
-	twin, err := NewFed(FixedFed(), store)
+	twin, err := NewFed(spec, store)
 	if err != nil {
 		return []Failure{{Channel: "harness", Classifier: "harness-error", What: err.Error(), Input: tc}}
 	}
-	want := twin.Run(tc.Query, "", tc.Vars, 8*time.Second)
+	if len(tc.Faults) > 0 {
+		InstallFaults(twin, tc.Faults, 0)
+		var inner []*Service
+		for _, ns := range nf.Services {
+			inner = append(inner, ns.svc)
+		}
+		InstallFaults(&Fed{Services: inner}, tc.Faults, 0)
+	}
+	want := twin.Run(tc.Query, tc.OpName, tc.Vars, 8*time.Second)
 	if want.PlanErr || want.Hung || want.Panicked != nil {
 		return nil // the in-process path's own trouble is other checks' subject
 	}
@@ -304,7 +328,7 @@ func RunNetTwin(tc NetTwinCase) []Failure {
 		wg.Add(1)
 		go func(k int) {
 			defer wg.Done()
-			outs[k] = nf.Run(context.Background(), tc.Query, "", copyVars(tc.Vars), key, 8*time.Second)
+			outs[k] = nf.Run(context.Background(), tc.Query, tc.OpName, copyVars(tc.Vars), key, 8*time.Second)
 		}(k)
 	}
 	wg.Wait()
